@@ -203,11 +203,13 @@ fn single<C: Combo>(sink: &mut Sink, rng: &mut Rng, n: usize, dir: &Path) {
       inputs.push(("json".to_string(), pj));
     }
     for (ifmt, ipath) in &inputs {
+      let mut first_fits_out = true;
       for ofmt in ["fits", "fits", "ascii", "json"] {
         let outp = dir.join(format!("conv.{}", ofmt));
         let _ = fs::remove_file(&outp);
-        // FITS output options: plain, --force-v1 (NUNIQ for space), --force-u64, both
-        let flags: Vec<&str> = if ofmt == "fits" { match rng.below(4) { 0 => vec![], 1 => vec!["-p"], 2 => vec!["-f"], _ => vec!["-p", "-f"] } } else { vec![] };
+        // FITS output options: plain, --force-v1 (NUNIQ for space), --force-u64, both; the first FITS output of
+        // every input format is always written with --force-u64 alone
+        let flags: Vec<&str> = if ofmt == "fits" { if first_fits_out { first_fits_out = false; vec!["-f"] } else { match rng.below(4) { 0 => vec![], 1 => vec!["-p"], 2 => vec!["-f"], _ => vec!["-p", "-f"] } } } else { vec![] };
         let mut args: Vec<&str> = vec!["convert", "-f", ifmt, "-t", tflag, ipath.to_str().unwrap(), ofmt];
         args.extend(flags.iter());
         args.push(outp.to_str().unwrap());
@@ -280,7 +282,7 @@ fn expect_error(sink: &mut Sink, what: &str, o: &Out, outp: Option<&Path>) {
 
 pub fn run(sink: &mut Sink, rng: &mut Rng, thorough: bool, dir: &Path) {
   fs::create_dir_all(dir).unwrap();
-  let n = if thorough { 24 } else { 2 };
+  let n = if thorough { 24 } else { 3 };
   macro_rules! pairs {
     ($a:ident, $b:ident, $c:ident) => {
       pair::<$a, $a>(sink, rng, n, dir);
